@@ -34,6 +34,8 @@ def run(ctx):
     ks = prog.trait_impl_method(opw.OPW, 'Kinematics', 'kinematic_singularity')
     ctx.require(ks is not None, 'OPWKinematics::kinematic_singularity')
     ctx.fn(ks)
+    ctx.rule('R05.6', 'constants of the singularity helpers that stand for pi, 2*pi or pi/180 are exact')
+    util.pi_constants(ctx, 'R05.6', [ks] + [prog.bodies[t['callee']['resolved']] for _, t in ks.calls() if t['callee'].get('local') and t['callee'].get('resolved') in prog.bodies])
     n = 0
     for (s5, o5) in ((1, 0.0), (-1, 0.0), (1, 0.5), (-1, -1.3)):
         model = opw_model(s5, o5)
